@@ -72,6 +72,7 @@ type meta struct {
 	Assumptions []string `json:"assumptions"`
 	FaultKinds  []string `json:"fault_kinds"`
 	QuickRuns   int      `json:"quick_runs_per_worker"`
+	Expected    []string `json:"expected_probes"`
 }
 
 type workerOut struct {
@@ -591,6 +592,15 @@ func runCheck(id, tier string, seed uint64, workers, runs, ms int, replay, work 
 		}
 	}
 
+	var neverHit []string
+	if m != nil {
+		for _, p := range m.Expected {
+			if _, ok := tot.Probes[p]; !ok {
+				tot.Probes[p] = 0
+				neverHit = append(neverHit, p)
+			}
+		}
+	}
 	ruleText := ""
 	var real, stubs, assumptions, faultKinds []string
 	if m != nil {
@@ -625,6 +635,7 @@ func runCheck(id, tier string, seed uint64, workers, runs, ms int, replay, work 
 			"tasks_left_blocked_after_drain":        tot.Leaked,
 			"bubbles_ended_with_blocked_goroutines": leakedBubbles,
 			"reach_probes":                          tot.Probes,
+			"reach_probes_never_hit":                neverHit,
 			"faults_fired":                          tot.Faults,
 			"fault_kinds":                           faultKinds,
 			"porcupine":                             map[string]int{"ok": tot.PorcOK, "illegal": tot.PorcIllegal, "unknown_timeout": tot.PorcUnknown},
